@@ -258,6 +258,11 @@ fn lex_next(cur: &[char], pos: &mut usize, st: &mut St) -> Lex {
                 *st = St::M;
                 return Lex::Tok(Tok::Ch(c));
             }
+            // characters beyond ASCII have category "other"; the generators put them into file names only
+            c if !c.is_ascii() && !c.is_control() => {
+                *st = St::M;
+                return Lex::Tok(Tok::Ch(c));
+            }
             c if !c.is_ascii() || c.is_ascii_control() => {
                 return Lex::Bad("character outside the model's alphabet");
             }
